@@ -331,7 +331,7 @@ class C05(core.Check):
 
     # ------------------------------------------------------------------ generators
     def gen_cases(self, rng: random.Random, tier: str) -> List[dict]:
-        n = 260 if tier == "quick" else 2500
+        n = 170 if tier == "quick" else 1500
         cases: List[dict] = [gen_asm(rng) for _ in range(n)]
         cases += [gen_asm_dense(rng) for _ in range(n // 5)]
         cases += [gen_hist(rng) for _ in range(n // 4)]
